@@ -93,3 +93,24 @@ def split (sep : Bytes) : Nat → Bytes → List Bytes
 
 end Spec
 end TlxVerif.C19
+
+namespace TlxVerif.C19
+open TlxVerif.C18 (Bytes npos)
+namespace Spec
+
+/-! ### Levenshtein distance: the defining recurrence over prefix lengths
+(`lev_{a,b}(i, j)`: distance between the first `i` bytes of `a` and the first `j` bytes of `b`;
+unit costs, characters compared by `eq`) -/
+
+def levD (eq : UInt8 → UInt8 → Bool) (a b : Bytes) : Nat → Nat → Nat
+  | 0, j => j
+  | i + 1, 0 => i + 1
+  | i + 1, j + 1 =>
+    min (min (levD eq a b i (j + 1) + 1) (levD eq a b (i + 1) j + 1))
+      (levD eq a b i j + (if eq (a.getD i 0) (b.getD j 0) then 0 else 1))
+termination_by i j => (i, j)
+
+def lev (eq : UInt8 → UInt8 → Bool) (a b : Bytes) : Nat := levD eq a b a.length b.length
+
+end Spec
+end TlxVerif.C19
